@@ -143,6 +143,16 @@ add(
     "DESIGN.md §4 C10",
 )
 
+add(
+    "C08", "exploration",
+    "Hypothesis over file layouts (BOM, declaration, pre-lines, existing header, post-lines, EOL, final newline) in 27 styles; by-construction outside lines compared byte-for-byte incl. terminators",
+    "About 7000 generated files per quick run: every outside line carries a unique token, so the check finds them around the single inserted block and "
+    "demands byte equality including line terminators, allowing only blank lines and trailing blanks directly adjacent to the block to differ; BOM "
+    "first, first-line declaration first, no foreign EOL anywhere, final newline kept; replacing and --no-replace mode.",
+    "Own-style comment lines are kept apart from the header block (the tool replaces the whole contiguous comment block by design); texts the third-party binary heuristic takes for binaries are only checked for 'FILE untouched'.",
+    "DESIGN.md §4 C08",
+)
+
 NOT_BUILT = "check not built yet in this revision of /verif (planned in DESIGN.md §4; property-based testing applies)"
 
 
